@@ -31,7 +31,7 @@ m = {
  "engines": [
   {"name": "lean-model", "path": "/verif/lean", "serves_properties": sorted(obl), "kind_free_text": "Lean 4 model of gtree (Gtree/Model), specification (Gtree/Spec), property theorems (Gtree/Props), native line-protocol driver (Main.lean)"},
   {"name": "harness", "path": "/verif/harness", "serves_properties": sorted(obl), "kind_free_text": "Go differential correspondence harness: real code in-process (or the built binaries) vs the Lean driver, rebuilt from /repo on every run"},
-  {"name": "translate", "path": "/verif/translate", "serves_properties": ["C01", "C02", "C03", "C05", "C06", "C07", "C08", "C09", "C10", "C12", "C15", "C17"], "kind_free_text": "go/ast translator: pure functions of /repo (markdown/parser.go Parse/separateRow/validateSpaces/calculateHierarchy/isBlank, IsSymbol, isRootBlockBeginning, isSharpRootRow, nodeGenerator.handleErr) statement by statement into Gtree/Generated/Source.lean on every run; Lemmas/SourceRefines.lean proves them equal to the hand-written model"},
+  {"name": "translate", "path": "/verif/translate", "serves_properties": ["C01", "C02", "C03", "C04", "C05", "C06", "C07", "C08", "C09", "C10", "C12", "C15", "C17"], "kind_free_text": "go/ast translator: pure functions of /repo (markdown/parser.go Parse/separateRow/validateSpaces/calculateHierarchy/isBlank, IsSymbol, isRootBlockBeginning, isSharpRootRow, nodeGenerator.handleErr) statement by statement into Gtree/Generated/Source.lean on every run; Lemmas/SourceRefines.lean proves them equal to the hand-written model"},
   {"name": "extract", "path": "/verif/extract", "serves_properties": ["C03", "C07", "C09", "C10", "C11", "C13", "C16", "C17"], "kind_free_text": "go/ast fact extractor regenerating Gtree/Generated/Facts.lean on every run"}
  ],
  "checks": checks,
